@@ -21,7 +21,7 @@ Not decided: FK equality with the file's semantics to 1e-6 (numerical).
 import ast
 
 from ..engine.model import AnalysisError, src, walk_own
-from ..engine.flow import Flow
+from ..engine.flow import Flow, Domain
 from ..engine.typestate import EventDomain, FactDomain
 from .c05 import r050
 
@@ -33,6 +33,161 @@ def nested(model, outer, name):
         if f.outer is outer and f.name == name:
             return f
     raise AnalysisError('anchor vanished: %s.<locals>.%s' % (outer.qualname, name))
+
+
+class PoseDomain(Domain):
+    """One iteration of the URDF chain walk over symbolic poses.  A pose value is a tuple of factor names (a product);
+    state = (env, facts, events): env maps pose variables (and `<list>[-1]`) to products, facts are the assumed element-kind
+    atoms, events the recorded uses (link pose appended, joint pose appended, table column written)."""
+
+    ORIGIN = 'temp_element.xyz_origin'
+    KINDS = ("temp_element.type=='link'", "temp_element.sub_type=='fixed'", "temp_element.type=='joint'")
+
+    def __init__(self, lst, scalars):
+        self.lst = lst
+        self.scalars = scalars
+
+    def ev(self, e, env):
+        env = dict(env)
+        if isinstance(e, ast.Name):
+            return env.get(e.id, ('?' + e.id,))
+        t = src(e).replace(' ', '')
+        if t == self.lst + '[-1]':
+            return env[self.lst + '[-1]']
+        if t == self.ORIGIN:
+            return ('O',)
+        if isinstance(e, ast.BinOp) and isinstance(e.op, ast.MatMult):
+            return self.ev(e.left, env) + self.ev(e.right, env)
+        if isinstance(e, ast.Call) and isinstance(e.func, ast.Attribute) and e.func.attr == 'copy' and not e.args:
+            return self.ev(e.func.value, env)
+        return ('?' + t,)
+
+    def transfer(self, stmt, state):
+        env, facts, events = state
+        d = dict(env)
+        if isinstance(stmt, ast.Assign) and len(stmt.targets) == 1:
+            t = stmt.targets[0]
+            tt = src(t).replace(' ', '')
+            if isinstance(t, ast.Name) and t.id == 'temp_element':
+                facts = facts | {('ADVANCED', True)}        # later tests speak about the next element
+            if (isinstance(t, ast.Name) and t.id in self.scalars) or tt == self.lst + '[-1]':
+                d[tt] = self.ev(stmt.value, env)
+            elif isinstance(t, ast.Subscript) and isinstance(t.value, ast.Name) and t.value.id in ('joint_axes', 'joint_homes'):
+                v = stmt.value
+                arg = None
+                if t.value.id == 'joint_axes' and isinstance(v, ast.Call) and src(v.func) == 'determineAxis' and len(v.args) == 2 \
+                        and src(v.args[1]).replace(' ', '') == 'temp_element.axis':
+                    arg = v.args[0]
+                if t.value.id == 'joint_homes':
+                    vt = v
+                    if isinstance(vt, ast.Call) and isinstance(vt.func, ast.Attribute) and vt.func.attr in ('flatten', 'reshape', 'ravel'):
+                        vt = vt.func.value
+                    if isinstance(vt, ast.Subscript) and src(vt.slice).replace(' ', '') in ('0:3', ':3'):
+                        arg = vt.value
+                events = events + ((t.value.id, self.ev(arg, env) if arg is not None else ('?' + src(v)[:40],), stmt.lineno),)
+        elif isinstance(stmt, ast.AugAssign) and isinstance(stmt.op, ast.MatMult):
+            tt = src(stmt.target).replace(' ', '')
+            if tt in d:
+                d[tt] = d[tt] + self.ev(stmt.value, env)
+        elif isinstance(stmt, ast.Expr) and isinstance(stmt.value, ast.Call) and isinstance(stmt.value.func, ast.Attribute) \
+                and stmt.value.func.attr == 'append' and isinstance(stmt.value.func.value, ast.Name) and len(stmt.value.args) == 1:
+            who = stmt.value.func.value.id
+            if who == self.lst:
+                v = self.ev(stmt.value.args[0], env)
+                d[self.lst + '[-1]'] = v
+                events = events + (('joint_pose', v, stmt.lineno),)
+            elif who == 'link_poses':
+                events = events + (('link_pose', self.ev(stmt.value.args[0], env), stmt.lineno),)
+        return ((tuple(sorted(d.items())), facts, events),)
+
+    def assume(self, test, truth, state):
+        env, facts, events = state
+        t = src(test).replace(' ', '').replace('"', "'")
+        if t in self.KINDS and ('ADVANCED', True) not in facts:
+            if (t, not truth) in facts:
+                return None
+            facts = facts | {(t, truth)}
+            # a link is not a joint
+            f = dict(facts)
+            if f.get(self.KINDS[0]) is True and f.get(self.KINDS[2]) is True:
+                return None
+        return (env, facts, events)
+
+
+def pose_walk(load, walk, rep):
+    """R13.3/R13.4 pose obligations, decided on the symbolic products of every path through one iteration."""
+    # the pose list and the scalar pose variables
+    pre = [n for n in load.body() if n.lineno < walk.lineno]
+    lst = None
+    init = {}
+    for n in pre:
+        if isinstance(n, ast.Assign) and len(n.targets) == 1 and isinstance(n.targets[0], ast.Name):
+            if isinstance(n.value, ast.List) and len(n.value.elts) == 1 and isinstance(n.value.elts[0], ast.Name) and n.targets[0].id == 'joint_poses':
+                lst = n.targets[0].id
+                init[lst + '[-1]'] = n.value.elts[0].id
+    if lst is None:
+        raise AnalysisError('loadArmFromURDF: the list of accumulated joint poses (joint_poses = [home]) is not recognised')
+    scalars = set()
+    for n in ast.walk(walk):
+        if isinstance(n, (ast.Assign, ast.AugAssign)):
+            t = n.targets[0] if isinstance(n, ast.Assign) else n.target
+            if isinstance(t, ast.Name) and PoseDomain.ORIGIN in src(n.value).replace(' ', '') and '@' in src(n.value) + ('@' if isinstance(n, ast.AugAssign) else ''):
+                scalars.add(t.id)
+    for n in pre:
+        if isinstance(n, ast.Assign) and len(n.targets) == 1 and isinstance(n.targets[0], ast.Name) and n.targets[0].id in scalars and isinstance(n.value, ast.Name):
+            init[n.targets[0].id] = n.value.id
+    arm_call = [c for c in ast.walk(load.node) if isinstance(c, ast.Call) and src(c.func) == 'Arm']
+    run = src(arm_call[0].args[2]).replace(' ', '') if arm_call and len(arm_call[0].args) > 2 else None
+    keys = sorted(scalars | {lst + '[-1]'})
+    res = {'run': run, 'tables_ok': False, 'tables_msg': 'tables not analysed'}
+    if run not in keys:
+        rep.ob('R13.4', load, 'tool home = the accumulated pose', False,
+               'Arm receives `%s` as its home tool pose, which is not one of the poses accumulated by the walk (%s)' % (run, ', '.join(keys)))
+        return res
+    dom = PoseDomain(lst, scalars)
+    unified = len({init.get(k) for k in keys}) == 1 and None not in {init.get(k) for k in keys}
+
+    def go(uni):
+        env = tuple(sorted((k, ('P',) if uni else ('P:' + k,)) for k in keys))
+        ends, brks, exits = Flow(dom).run_loop_body(walk.body, {(env, frozenset(), ())})
+        return env, ends
+    env0, ends = go(unified)
+    if unified and not all(len({v for k, v in e[0]}) == 1 for e in ends):
+        unified = False
+        env0, ends = go(False)
+    old = dict(env0)[run]
+    n_paths = {'link': 0, 'fixed': 0, 'moving': 0}
+    bad = {}
+    tables = {}
+    for (env, facts, events) in ends:
+        f = dict(facts)
+        is_link = f.get(PoseDomain.KINDS[0]) is True
+        is_fixed = f.get(PoseDomain.KINDS[1]) is True
+        kind = 'fixed' if is_fixed else ('link' if is_link else 'moving')
+        n_paths[kind] += 1
+        new = dict(env)[run]
+        want = old if kind == 'link' else old + ('O',)
+        if new != want:
+            bad.setdefault(kind, 'after a %s element the accumulated pose `%s` is %s, expected %s' % (
+                kind if kind == 'link' else kind + ' joint', run, ' @ '.join(new), ' @ '.join(want)))
+        for (what, val, line) in events:
+            if what == 'link_pose' and val != old + ('O',):
+                bad.setdefault('link_pose', 'line %d: the pose stored for a link is %s, expected accumulated pose @ inertial origin (%s)' % (line, ' @ '.join(val), ' @ '.join(old + ('O',))))
+            if what == 'joint_pose' and (kind != 'moving' or val != old + ('O',)):
+                bad.setdefault('joint_pose', 'line %d: the pose appended for a joint is %s, expected %s on the moving-joint path only' % (line, ' @ '.join(val), ' @ '.join(old + ('O',))))
+            if what in ('joint_axes', 'joint_homes'):
+                tables.setdefault(what, set()).add((val == old + ('O',) and kind == 'moving', ' @ '.join(val), line))
+    legend = ' (P = pose at the start of the iteration, O = this element\'s origin%s)' % ('' if unified else '; the pose variables are not kept equal by the walk, P:<name> = value of <name> at the start of the iteration')
+    rep.ob('R13.3', load, 'fixed joints are folded into the running pose', 'fixed' not in bad and n_paths['fixed'] > 0, bad.get('fixed', 'no fixed-joint path found') + legend, line=walk.lineno)
+    rep.ob('R13.3', load, 'moving joints extend the pose chain by their origin', 'moving' not in bad and 'joint_pose' not in bad and n_paths['moving'] > 0,
+           bad.get('moving', bad.get('joint_pose', 'no moving-joint path found')) + legend, line=walk.lineno)
+    rep.ob('R13.3', load, 'links leave the running pose alone; link pose = running pose @ inertial origin', 'link' not in bad and 'link_pose' not in bad and n_paths['link'] > 0,
+           bad.get('link', bad.get('link_pose', 'no link path found')) + legend, line=walk.lineno)
+    rep.count('R13.3 iteration paths by element kind', sum(n_paths.values()))
+    ok = set(tables) == {'joint_axes', 'joint_homes'} and all(all(t[0] for t in v) for v in tables.values())
+    res['tables_ok'] = ok
+    res['tables_msg'] = 'tables filled from %s' % {k: sorted((t[1], t[2]) for t in v) for k, v in tables.items()} + legend
+    return res
 
 
 def check(model, rep):
@@ -215,12 +370,8 @@ def check(model, rep):
         isinstance(first_if[0].body[-1], ast.Continue)
     rep.ob('R13.3', load, 'DOF pre-count and chain walk use complementary predicates', ok and ok2,
            'count: %s ; walk skip: %s' % (src(cnt_ifs[0].test) if cnt_ifs else '?', src(first_if[0].test) if first_if else '?'))
-    # fixed joints compose the pose
-    fixed = [n for n in ast.walk(walk) if isinstance(n, ast.If) and src(n.test).replace(' ', '') == "temp_element.sub_type=='fixed'"]
-    okf = bool(fixed) and any(src(s).replace(' ', '') == 'joint_poses[-1]=joint_poses[-1]@temp_element.xyz_origin' for s in fixed[0].body)
-    rep.ob('R13.3', load, 'fixed joints are folded into the running pose', okf, 'a fixed joint does not post-multiply the accumulated pose by its origin')
-    mv = [s for s in walk.body if isinstance(s, ast.Expr) and isinstance(s.value, ast.Call) and src(s.value).replace(' ', '') == 'joint_poses.append(joint_poses[-1]@temp_element.xyz_origin)']
-    rep.ob('R13.3', load, 'moving joints extend the pose chain by their origin', len(mv) == 1, 'pose of a moving joint is not previous pose @ joint origin')
+    # pose algebra of the walk: symbolic products over one iteration (every path), see PoseDomain
+    pose = pose_walk(load, walk, rep)
 
     # ---------------------------------------------------------------- R13.4
     rep.rule('R13.4', 'screw = [axis ; cross(point, axis)], axis = R(accumulated pose) axis_file, point = translation; Arm(identity, screws, last pose, ...)')
@@ -229,7 +380,7 @@ def check(model, rep):
         if isinstance(n, ast.Assign) and isinstance(n.targets[0], ast.Subscript) and isinstance(n.targets[0].value, ast.Name) and n.targets[0].value.id in TABLES:
             cols[n.targets[0].value.id] = src(n.value).replace(' ', '')
     rep.ob('R13.4', load, 'axis_i = determineAxis(accumulated pose, joint.axis); point_i = translation of the accumulated pose',
-           cols == {'joint_axes': 'determineAxis(joint_poses[-1],temp_element.axis)', 'joint_homes': 'joint_poses[-1][0:3].flatten()'}, 'tables filled with %s' % cols)
+           pose['tables_ok'], pose['tables_msg'])
     da = nested(model, load, 'determineAxis')
     a = {src(n.targets[0]): src(n.value).replace(' ', '') for n in walk_own(da.node) if isinstance(n, ast.Assign)}
     p0, p1 = da.params
@@ -240,7 +391,8 @@ def check(model, rep):
     ok = len(sc) == 1 and src(sc[0].value).replace(' ', '') == 'np.hstack((joint_axes[0:3,i],np.cross(joint_homes[0:3,i],joint_axes[0:3,i])))'
     rep.ob('R13.4', load, 'screw_i = [axis_i ; point_i x axis_i]', ok, 'screw construction is %s' % (src(sc[0].value) if sc else '?'))
     arm_call = [c for c in ast.walk(load.node) if isinstance(c, ast.Call) and src(c.func) == 'Arm']
-    ok = len(arm_call) == 1 and [src(x).replace(' ', '') for x in arm_call[0].args] == ['tm()', 'screw_list', 'joint_poses[-1]', 'joint_homes', 'joint_axes']
+    ok = len(arm_call) == 1 and len(arm_call[0].args) == 5 and [src(x).replace(' ', '') for x in arm_call[0].args[:2] + arm_call[0].args[3:]] == ['tm()', 'screw_list', 'joint_homes', 'joint_axes'] \
+        and src(arm_call[0].args[2]).replace(' ', '') == pose['run']
     rep.ob('R13.4', load, 'Arm(tm(), screws, last accumulated pose, points, axes)', ok, 'Arm is built with %s' % ([src(x) for x in arm_call[0].args] if arm_call else '?'))
     sj = [c for c in ast.walk(load.node) if isinstance(c, ast.Call) and src(c.func) == 'arm.setJointProperties']
     ok = len(sj) == 1 and [src(x).replace(' ', '') for x in sj[0].args[:2]] == ['np.array(joint_mins)', 'np.array(joint_maxs)']
